@@ -304,7 +304,9 @@ class Folder:
                 return
             g = gens[i]
             for item in self.iterate(self.ev(g.iter, env)):
-                env2 = dict(env)
+                # a new scope in front of the enclosing one (a plain dict is copied; lazily filled / chained environments are
+                # chained so that they keep resolving names on demand)
+                env2 = dict(env) if type(env) is dict else _chain(env)
                 self.bind(g.target, item, env2)
                 if all(self.ev(c, env2) for c in g.ifs):
                     rec(i + 1, env2)
@@ -513,6 +515,12 @@ class Folder:
             return  # assertions in declarations are checked by the library at import time
         else:
             self.err(st, "unsupported statement in a declaration")
+
+
+def _chain(env):
+    from collections import ChainMap
+
+    return ChainMap({}, env)
 
 
 class _ModuleNS:
